@@ -153,3 +153,19 @@ func VerifH_ReMapConcurrent() {
 	symx.Assert(i1 == r.SearchIndex(h1) && i2 == r.SearchIndex(h2) && s2 == r.XHashIndex("k"), "and the same shard as every later lookup: the index is stable")
 	symx.Reach("end")
 }
+
+// C17/H2d: every routing table has the shard count it was constructed with - options given to an earlier
+// constructor do not leak into a later one (default or explicit).
+func VerifH_ReMapOptionsPerInstance() {
+	p1 := symx.Concrete(symx.Int("earlierShards"), 1, 5)
+	a := NewReMap(WithPrime(uint64(p1)))
+	symx.Assert(a.Numbs() == uint64(p1), "the configured shard count")
+	d := NewReMap()
+	symx.Assert(d.Numbs() == DefaultPrime, "a table built without options has the default shard count")
+	p2 := symx.Concrete(symx.Int("laterShards"), 1, 3)
+	b := NewReMap(WithPrime(uint64(p2)))
+	symx.Assert(b.Numbs() == uint64(p2) && a.Numbs() == uint64(p1) && d.Numbs() == DefaultPrime, "each table keeps its own shard count")
+	x := symx.Uint64("hash")
+	symx.Assert(a.SearchIndex(x) < p1 && d.SearchIndex(x) < int(DefaultPrime) && b.SearchIndex(x) < p2, "and routes inside it")
+	symx.Reach("end")
+}
